@@ -226,3 +226,44 @@ pub unsafe extern "C" fn clock_gettime(clk: libc::clockid_t, ts: *mut libc::time
     }
     libc::syscall(libc::SYS_clock_gettime, clk, ts) as libc::c_int
 }
+
+/// The kernel's NTP discipline state as a production host with a running chronyd has it: synchronised
+/// (TIME_OK, STA_UNSYNC clear, small maxerror). The sandbox's own kernel says TIME_ERROR / unsynchronised,
+/// which is the one answer under which code that consults it keeps its fallback behaviour. Queries only
+/// (modes == 0); anything that tries to *set* goes to the real call.
+///
+/// # Safety
+/// Same contract as adjtimex(2).
+#[no_mangle]
+pub unsafe extern "C" fn adjtimex(buf: *mut libc::timex) -> libc::c_int {
+    if buf.is_null() || (*buf).modes != 0 {
+        return libc::syscall(libc::SYS_adjtimex, buf) as libc::c_int;
+    }
+    std::ptr::write_bytes(buf, 0, 1);
+    (*buf).status = 0x2001; // STA_PLL | STA_NANO
+    (*buf).maxerror = 50_000;
+    (*buf).esterror = 500;
+    (*buf).constant = 7;
+    (*buf).precision = 1;
+    (*buf).tolerance = 32_768_000;
+    (*buf).tick = 10_000;
+    (*buf).tai = 37;
+    0 // TIME_OK
+}
+
+/// # Safety
+/// Same contract as ntp_adjtime(3).
+#[no_mangle]
+pub unsafe extern "C" fn ntp_adjtime(buf: *mut libc::timex) -> libc::c_int {
+    adjtimex(buf)
+}
+
+/// # Safety
+/// Same contract as clock_adjtime(2).
+#[no_mangle]
+pub unsafe extern "C" fn clock_adjtime(clk: libc::clockid_t, buf: *mut libc::timex) -> libc::c_int {
+    if clk == libc::CLOCK_REALTIME {
+        return adjtimex(buf);
+    }
+    libc::syscall(libc::SYS_clock_adjtime, clk, buf) as libc::c_int
+}
